@@ -19,7 +19,8 @@
 EXTENDS Integers, Sequences, FiniteSets, TLC
 
 CONSTANTS Promises,       \* ids of the long-lived promises, e.g. {"a", "b"}
-          MaxSteps
+          MaxSteps,
+          Cold            \* TRUE: the behaviour begins before the server has ever been started on its (new) database file
 
 VARIABLES
   up,      \* the server process is running
@@ -41,7 +42,7 @@ Completed == {"resolved", "rejected", "canceled"}
 Definite(p) == ps[p] \in {"none", "pending"} \cup Completed
 
 Init ==
-  /\ up = TRUE /\ ps = [p \in Promises |-> "none"] /\ routed = {} /\ subs = {} /\ notified = {}
+  /\ up = ~ Cold /\ ps = [p \in Promises |-> "none"] /\ routed = {} /\ subs = {} /\ notified = {}
   /\ ts = [p \in Promises |-> "none"] /\ sched = "none" /\ fired = FALSE /\ lock = FALSE
   /\ short = "none" /\ aged = FALSE /\ n = 0 /\ hist = <<>>
 
